@@ -625,7 +625,7 @@ def s16c_band_order(ctx):
             continue
         n += 1
         up, mid, lowp = BANDS_BY_CONSTRUCTION[adt]
-        b = m.body(m.impl_fn_path(ii, 'next'))
+        b = m.body_inlined(m.impl_fn_path(ii, 'next')) or m.body(m.impl_fn_path(ii, 'next'))
         short = adt.rsplit('::', 1)[-1]
         cfg_adt = None
         for v in f.adts[adt]['variants']:
